@@ -136,7 +136,8 @@ fn main() {
     // terms of language Q (named operators WITH payload fields) built through the API: what Display prints must parse back
     // to the same value, as a term and as a pattern
     fn genq(rng: &mut StdRng, depth: usize) -> RecExpr<Q> {
-        let syms = ["foo", "a", "x1", "lam", "c", "7", "tag"];
+        // also payload texts that READ as numbers but are not canonical numerals: the payload is the text as written (C18n)
+        let syms = ["foo", "a", "x1", "lam", "c", "7", "tag", "007", "+1", "010", "00"];
         let leaf = |n: Q| RecExpr { node: n, children: vec![] };
         if depth == 0 || rng.gen_bool(0.25) {
             return match rng.gen_range(0..6) {
